@@ -250,6 +250,9 @@ func (w *c48w) mutBaseResponse(idx int, b mutBase) *mutBuilt {
 	ai := sigAlgByAlg(alg)
 	serial, _ := genSerial(r)
 	this, _ := genTimeOK(r)
+	for y := this.UTC().Year(); y < 2 || y > 9998; y = this.UTC().Year() {
+		this, _ = genTimeOK(r) // room for revokedAt = this-1h and nextUpdate = this+72h
+	}
 	next := this.Add(72 * time.Hour)
 	reason := int64(ocsp.KeyCompromise)
 	x := &mutBuilt{p: p}
